@@ -2,11 +2,12 @@
 // -include harness/sched/verif_sched.hpp) under the deterministic scheduler, one scenario per input line,
 // one child process per batch of scenarios (a new child after each DEADLOCK/crash), and prints ONE line per scenario:
 //   OK <event trace>
-//   DEADLOCK why=<..> STATE jobs=<n> busy=<n> idle=<n> done=<n> term=<0|1> THREADS <id>:<finished>:<kind>:<notified>,... CHOICES <c,c,..> TRACE <event trace>
+//   DEADLOCK why=<..> STATE THREADS <id>:<finished>:<kind>:<notified>,... CHOICES <c,c,..> TRACE <event trace>
+//   (the component state at a rest state -- queue length, counters -- is derived from the trace by the driver, not read from the object)
 //   CRASH status=<n> <tail of the child's output>
 // Scenario line:  W=<workers> J=<id>:<jop>.<jop>;<id>:... C=<cop>.<cop>;<cop>... M=<cop>.<cop> sp=<0|1> st=<0|1> seed=<n> [ch=<c,c,...>]
 //   jop: e<j> enqueue job j | t terminate() | x throw std::runtime_error at the end of the body (after the effect) |
-//        w<j> rendezvous: block (shim mutex m1 / condition variable c2, not the pool's) until the body of job j has ended, then note WD j |
+//        w<j> rendezvous: block (shim mutex / condition variable of the harness, not the pool's) until the body of job j has ended, then note WD j |
 //        c<j> the closure's captured RAII token enqueues job j from its destructor | F / B (first op) the job is enqueued as a
 //        plain function pointer / a bound member function instead of a capturing lambda (then there is no closure token);
 //   cop: e<j> | L loop_until_empty | T loop_until_terminate | X terminate() | D done() | S size() | I idle() | H has_idle() | R thread(i) audit
@@ -15,7 +16,7 @@
 // Program of the main thread: construct pool(W); spawn the clients; run M; join the clients; destroy the pool.
 // User events: JS/JE job body start/end (scheduling points), ENQ/LE/LT/TERM call markers and LER (return of
 // loop_until_empty; argument = number of job bodies whose effect is visible to the caller) as notes; CD j = the closure of
-// job j (its captured token) was destroyed; IT p = InitThread hook of worker p; SZ/IDLE/HAS/THR = observed size()/idle()/
+// job j (its captured token) was destroyed; IT p = InitThread hook of worker p; SZ/DONE/IDLE/HAS/THR = observed size()/done()/idle()/
 // has_idle()/thread(i) results.  The pool's "EXCEPTION: ..." line on std::cerr is discarded.
 #include <cstdio>
 #include <cstdlib>
@@ -35,20 +36,9 @@
 
 #include <tlx/thread_pool.hpp>
 
-// ---- legal access to private members (explicit-instantiation rule [temp.spec]/6) ------------------------
-template <typename Tag, typename Tag::type M> struct Rob { friend typename Tag::type steal(Tag) { return M; } };
-#define ROB(tag, T, member) \
-    struct tag { typedef T tlx::ThreadPool::*type; friend type steal(tag); }; \
-    template struct Rob<tag, &tlx::ThreadPool::member>;
-ROB(TMutex, verif::mutex, mutex_)
-ROB(TCvJobs, verif::condition_variable, cv_jobs_)
-ROB(TCvFin, verif::condition_variable, cv_finished_)
-ROB(TBusy, verif::atomic<size_t>, busy_)
-ROB(TIdle, verif::atomic<size_t>, idle_)
-ROB(TDone, verif::atomic<size_t>, done_)
-ROB(TTerm, verif::atomic<bool>, terminate_)
-ROB(TJobs, std::deque<tlx::ThreadPool::Job>, jobs_)
-
+// No private member of ThreadPool is named here.  Shim object ids are assigned in order of first use, so the pool's mutex,
+// its two condition variables and its four atomics get schedule-dependent names; the driver identifies them by ROLE from the
+// trace.  Only the harness' own rendezvous mutex / condition variable are pre-registered (ids m0 / c0 in the raw trace).
 struct Op { char k; int j; };
 struct Scenario {
     int W = 1; std::vector<std::vector<Op>> jobs; std::vector<std::vector<Op>> clients; std::vector<Op> mainops;
@@ -160,7 +150,7 @@ static void run_cops(const std::vector<Op>& ops) {
             s.note("LER", sum); break; }
         case 'T': s.note("LT"); g_pool->loop_until_terminate(); break;
         case 'X': do_terminate(); break;
-        case 'D': { size_t d = g_pool->done(); (void)d; break; }
+        case 'D': { size_t d = g_pool->done(); s.note("DONE", static_cast<long long>(d)); break; }
         case 'S': s.note("SZ", static_cast<long long>(g_pool->size())); break;
         case 'I': { size_t v = g_pool->idle(); s.note("IDLE", static_cast<long long>(v)); break; }
         case 'H': { bool b = g_pool->has_idle(); s.note("HAS", b ? 1 : 0); break; }
@@ -171,7 +161,6 @@ static void run_cops(const std::vector<Op>& ops) {
         }
     }
 }
-template <typename T> static unsigned long long raw(const void* p) { T v; memcpy(&v, p, sizeof(T)); return static_cast<unsigned long long>(v); }
 
 static int child_main(Scenario& sc) {
     g_sc = &sc;
@@ -179,21 +168,10 @@ static int child_main(Scenario& sc) {
     verif::Sched::hw_concurrency() = static_cast<unsigned>(sc.W);
     s.begin(sc.seed, sc.st, sc.sp != 0, 30000);
     if (sc.has_choices) s.set_replay(sc.choices);
-    tlx::ThreadPool* P = reinterpret_cast<tlx::ThreadPool*>(pool_buf);
-    // fixed object names, independent of the schedule: m0 mutex_, c0 cv_jobs_, c1 cv_finished_, a0 busy_, a1 idle_, a2 done_, a3 terminate_
-    s.objid(&(P->*steal(TMutex())), 'm');
-    s.objid(&(P->*steal(TCvJobs())), 'c'); s.objid(&(P->*steal(TCvFin())), 'c');
-    s.objid(&(P->*steal(TBusy())), 'a'); s.objid(&(P->*steal(TIdle())), 'a');
-    s.objid(&(P->*steal(TDone())), 'a'); s.objid(&(P->*steal(TTerm())), 'a');
     static verif::mutex rm; static verif::condition_variable rcv; g_rm = &rm; g_rcv = &rcv;
-    s.objid(&rm, 'm'); s.objid(&rcv, 'c');                                   // m1, c2
+    s.objid(&rm, 'm'); s.objid(&rcv, 'c');                                   // raw ids m0, c0 (the pool's objects follow)
     memset(g_flag, 0, sizeof(g_flag)); memset(g_waited, 0, sizeof(g_waited));
     for (auto& ops : sc.jobs) for (const Op& o : ops) if (o.k == 'w') g_waited[o.j & 4095] = true;
-    s.on_deadlock = [P, &s]() {
-        printf("STATE jobs=%zu busy=%llu idle=%llu done=%llu term=%llu\n", (P->*steal(TJobs())).size(),
-               raw<size_t>(&(P->*steal(TBusy()))), raw<size_t>(&(P->*steal(TIdle()))), raw<size_t>(&(P->*steal(TDone()))),
-               raw<bool>(&(P->*steal(TTerm()))));
-    };
     static std::ostringstream cerr_sink; cerr_sink.str(""); std::cerr.rdbuf(cerr_sink.rdbuf());   // "EXCEPTION: ..." of the pool
     if (sc.init >= 0) {
         int n = sc.init;
